@@ -52,3 +52,78 @@ def atomAt (a : Atom) (buf : Bytes) (o : Nat) : Prop :=
   window buf (o + a.backtrack) a.bytes.length = some a.bytes
 
 end YaraModel.Text
+
+namespace YaraModel.Text
+
+structure Match where
+  off : Nat
+  len : Nat
+  key : UInt8
+deriving DecidableEq, Repr
+
+/-! ### Verification of a candidate — `_yr_scan_verify_literal_match` -/
+
+/-- `STRING_FLAGS_FITS_IN_ATOM` (parser.c): the whole encoded string is the atom -/
+def fitsInAtom (m : Mods) (s : Bytes) : Bool :=
+  if m.wide then 2 * s.length ≤ 4 else s.length ≤ 4
+
+/-- return value of `_yr_scan_compare` / `_icompare` / `_wcompare` / `_wicompare`: matched length or 0 -/
+def cmpLen (nocase : Bool) (pat buf : Bytes) (o : Nat) : Nat :=
+  if occursAt nocase pat buf o then pat.length else 0
+
+/-- `_yr_scan_xor_compare` / `_xor_wcompare`: (matched length, key); the key comes from the first byte,
+    the declared range is NOT consulted (the compiled string does not carry it) -/
+def xorCmp (pat buf : Bytes) (o : Nat) : Nat × UInt8 :=
+  match xorKeyAt pat buf o with
+  | some k => (pat.length, k)
+  | none => (0, 0)
+
+/-- (forward_matches, xor_key) computed by `_yr_scan_verify_literal_match` for a candidate at `o`
+    raised by an automaton match whose `backtrack` (= length of the atom for FITS_IN_ATOM strings) is `bt` -/
+def forwardMatches (m : Mods) (s : Bytes) (bt : Nat) (buf : Bytes) (o : Nat) : Nat × UInt8 :=
+  if fitsInAtom m s then
+    if m.xor.isSome then
+      let k1 := if m.wide then (let r := xorCmp (widen s) buf o; if r.1 > 0 then r.2 else 0) else 0
+      let k2 := if m.ascii then (let r := xorCmp s buf o; if r.1 > 0 then r.2 else k1) else k1
+      (bt, k2)
+    else (bt, 0)
+  else if m.nocase then
+    let f1 := if m.ascii then cmpLen true s buf o else 0
+    let f2 := if m.wide && f1 == 0 then cmpLen true (widen s) buf o else f1
+    (f2, 0)
+  else
+    let f1 := if m.ascii then cmpLen false s buf o else 0
+    let f2 := if m.wide && f1 == 0 then cmpLen false (widen s) buf o else f1
+    if m.xor.isSome && f2 == 0 then
+      let r1 := if m.wide then xorCmp (widen s) buf o else (0, 0)
+      if m.ascii && r1.1 == 0 then xorCmp s buf o else r1
+    else (f2, 0)
+
+/-- the match (if any) handed to the match list for a candidate: verification + `fullword` test of
+    `_yr_scan_match_callback` (`RE_FLAGS_WIDE` is set iff forward_matches = 2·|s|) -/
+def verifyCandidate (m : Mods) (s : Bytes) (bt : Nat) (buf : Bytes) (o : Nat) : Option Match :=
+  let (fm, k) := forwardMatches m s bt buf o
+  if fm == 0 then none
+  else if o + fm > buf.length then none            -- cannot happen for genuine candidates (the C code asserts it)
+  else if m.fullword && !fullwordOK buf o fm (fm == 2 * s.length) then none
+  else some ⟨o, fm, k⟩
+
+/-! ### `_yr_scan_add_match_to_list` (replace_if_exists = false for text strings) -/
+
+/-- insert keeping ascending offsets; an existing entry at the same offset wins.
+    The C code walks from the tail; the resulting list is the same. -/
+def insertMatch (x : Match) : List Match → List Match
+  | [] => [x]
+  | y :: t =>
+    if x.off < y.off then x :: y :: t
+    else if x.off == y.off then y :: t
+    else y :: insertMatch x t
+
+/-- the whole per-string pipeline over the candidates (offset, backtrack) in arrival order -/
+def pipeline (m : Mods) (s buf : Bytes) (cands : List (Nat × Nat)) : List Match :=
+  cands.foldl (fun acc c =>
+    match verifyCandidate m s c.2 buf c.1 with
+    | some x => insertMatch x acc
+    | none => acc) []
+
+end YaraModel.Text
